@@ -63,6 +63,8 @@ fn random_data(size: usize) -> Vec<u8> {
     let rand = SystemRandom::new();
     let mut data = vec![0; size];
     rand.fill(&mut data).expect("Failed to obtain random bytes");
+    #[cfg(dswd_vpncloud_verif)]
+    crate::verif::fill("core.random_data", &mut data);
     data
 }
 
@@ -77,6 +79,8 @@ impl Nonce {
     fn random(rand: &SystemRandom) -> Self {
         let mut nonce = Nonce::zero();
         rand.fill(&mut nonce.0[6..]).expect("Failed to obtain random bytes");
+        #[cfg(dswd_vpncloud_verif)]
+        crate::verif::fill("core.nonce_start", &mut nonce.0[6..]);
         nonce
     }
 
@@ -101,6 +105,8 @@ impl Nonce {
 }
 
 struct CryptoKey {
+    #[cfg(dswd_vpncloud_verif)]
+    fp: u64,
     key: LessSafeKey,
     send_nonce: Nonce,
     min_nonce: Nonce,
@@ -112,7 +118,13 @@ impl CryptoKey {
     fn new(rand: &SystemRandom, key: LessSafeKey, nonce_half: bool) -> Self {
         let mut send_nonce = Nonce::random(rand);
         send_nonce.set_msb(if nonce_half { 0x80 } else { 0x00 });
+        #[cfg(dswd_vpncloud_verif)]
+        let fp = verif_fingerprint(&key);
+        #[cfg(dswd_vpncloud_verif)]
+        crate::verif::probe(crate::verif::Event::NonceStart { key_fp: fp, nonce: *send_nonce.as_bytes() });
         CryptoKey {
+            #[cfg(dswd_vpncloud_verif)]
+            fp,
             key,
             send_nonce,
             min_nonce: Nonce::zero(),
@@ -165,6 +177,12 @@ impl CryptoCore {
         let (data, tag_space) = data_and_tag.split_at_mut(data_length);
         let key = &mut self.keys[self.current_key];
         key.send_nonce.increment();
+        #[cfg(dswd_vpncloud_verif)]
+        crate::verif::probe(crate::verif::Event::Seal {
+            key_fp: key.fp,
+            key_id: self.current_key as u8,
+            nonce: *key.send_nonce.as_bytes(),
+        });
         {
             let mut extra = Cursor::new(extra);
             extra.write_u8(self.current_key as u8).unwrap();
@@ -212,8 +230,16 @@ impl CryptoCore {
 
     pub fn rotate_key(&mut self, key: LessSafeKey, id: u64, use_for_sending: bool) {
         debug!("Rotated key {} (use for sending: {})", id, use_for_sending);
+        #[cfg(dswd_vpncloud_verif)]
+        let verif_full_id = id;
         let id = (id % 4) as usize;
         self.keys[id] = CryptoKey::new(&self.rand, key, self.nonce_half);
+        #[cfg(dswd_vpncloud_verif)]
+        crate::verif::probe(crate::verif::Event::KeyRotated {
+            key_fp: self.keys[id].fp,
+            id: verif_full_id,
+            use_for_sending,
+        });
         if use_for_sending {
             self.current_key = id
         }
@@ -228,6 +254,51 @@ impl CryptoCore {
         for k in &mut self.keys {
             k.update_min_nonce();
         }
+    }
+}
+
+#[cfg(dswd_vpncloud_verif)]
+fn verif_fingerprint(key: &LessSafeKey) -> u64 {
+    // AEAD tag of the empty message under the reserved all-ones nonce (never used for traffic)
+    let nonce = aead::Nonce::assume_unique_for_key([0xff; NONCE_LEN]);
+    let tag = key.seal_in_place_separate_tag(nonce, aead::Aad::empty(), &mut []).expect("Failed to encrypt");
+    crate::verif::fp_of_tag(tag.as_ref())
+}
+
+#[cfg(dswd_vpncloud_verif)]
+pub fn algorithm_name(algo: &'static aead::Algorithm) -> &'static str {
+    if algo == &aead::CHACHA20_POLY1305 {
+        "CHACHA20"
+    } else if algo == &aead::AES_128_GCM {
+        "AES128"
+    } else if algo == &aead::AES_256_GCM {
+        "AES256"
+    } else {
+        "UNKNOWN"
+    }
+}
+
+#[cfg(dswd_vpncloud_verif)]
+impl CryptoCore {
+    pub fn verif_current_key(&self) -> u8 {
+        self.current_key as u8
+    }
+
+    pub fn verif_key_fps(&self) -> [u64; 4] {
+        [self.keys[0].fp, self.keys[1].fp, self.keys[2].fp, self.keys[3].fp]
+    }
+
+    pub fn verif_nonce_half(&self) -> bool {
+        self.nonce_half
+    }
+
+    pub fn verif_send_nonce(&self) -> [u8; NONCE_LEN] {
+        *self.keys[self.current_key].send_nonce.as_bytes()
+    }
+
+    /// Places the send counter of the current key (to reach carry boundaries and the 56 bit limit)
+    pub fn verif_set_send_nonce(&mut self, nonce: [u8; NONCE_LEN]) {
+        self.keys[self.current_key].send_nonce = Nonce(nonce);
     }
 }
 
